@@ -54,6 +54,10 @@ impl Ctx {
     pub fn quick(&self) -> bool {
         self.tier == Tier::Quick
     }
+    /// same context with another shrinking budget (socket phases: failing cases are slow)
+    pub fn with_shrink(&self, n: u32) -> Ctx {
+        Ctx { prop: self.prop, tier: self.tier, seed: self.seed, workers: self.workers, start: self.start, level: self.level, hang_secs: self.hang_secs, max_shrink_iters: n }
+    }
     /// pick by tier
     pub fn by<T>(&self, q: T, t: T) -> T {
         if self.quick() {
@@ -197,6 +201,12 @@ pub struct Found<C> {
 
 thread_local! {
     static FAILED: Cell<bool> = const { Cell::new(false) };
+    /// a failure whose detection involves long harness waits is not shrunk (each shrink step would wait again)
+    static SKIP_SHRINK: Cell<bool> = const { Cell::new(false) };
+}
+
+fn is_slow_failure(fi: &FailInfo) -> bool {
+    matches!(fi.clause.as_str(), "never_answered" | "slot_leak" | "idle_timeout_missed" | "stall" | "hang" | "no_progress" | "connection_unusable")
 }
 
 /// Known findings file (committed; never written at run time).
@@ -307,6 +317,7 @@ where
                 .stack_size(16 << 20)
                 .spawn_scoped(s, move || {
                     FAILED.with(|f| f.set(false));
+                    SKIP_SHRINK.with(|f| f.set(false));
                     let seed = ctx.seed.wrapping_mul(1000).wrapping_add(w as u64).wrapping_add(phase_tag * 1_000_003);
                     let mut seed_bytes = [0u8; 32];
                     for i in 0..4 {
@@ -330,6 +341,9 @@ where
                         if acc.stop.load(Ordering::Relaxed) && !FAILED.with(|f| f.get()) {
                             return Ok(());
                         }
+                        if SKIP_SHRINK.with(|f| f.get()) {
+                            return Ok(());
+                        }
                         if ctx.hang_secs.is_some() {
                             *current[w].lock().unwrap() = Some(case.clone());
                         }
@@ -342,6 +356,13 @@ where
                         match rep.fail {
                             Some(fi) => {
                                 FAILED.with(|f| f.set(true));
+                                if is_slow_failure(&fi) {
+                                    SKIP_SHRINK.with(|f| f.set(true));
+                                    let mut g = found.lock().unwrap();
+                                    if g.is_none() {
+                                        *g = Some(Found { case: case.clone(), fail: fi.clone() });
+                                    }
+                                }
                                 let m = fi.msg.clone();
                                 *last_fail.borrow_mut() = Some(fi);
                                 Err(TestCaseError::fail(m))
@@ -351,6 +372,10 @@ where
                     });
                     if let Err(TestError::Fail(_reason, case)) = r {
                         acc.stop.store(true, Ordering::Relaxed);
+                        if SKIP_SHRINK.with(|f| f.get()) {
+                            done[w].store(true, Ordering::Relaxed);
+                            return;
+                        }
                         // re-run the shrunk case to get its own report
                         let rep = run(&case);
                         let fi = rep.fail.or_else(|| last_fail.borrow().clone());
